@@ -105,31 +105,43 @@ def tla_bool(b):
 # --------------------------------------------------------------------------------------
 # forward replay of exported cases
 # --------------------------------------------------------------------------------------
-def replay_cases(exe, recs, fields, verdict, pid, nontrivial, fingerprint, want_err=False):
-    """recs: exported TLC records (delim, comment, lines, exp, ...). Returns (n, n_nontrivial, samples)."""
+def replay_cases(exe, recs, fields, verdict, pid, nontrivial, fingerprint, want_err=False, framing="alt"):
+    """recs: exported TLC records (delim, comment, lines, exp, ...). Returns (n, n_nontrivial, samples).
+    framing (Parser.tla FileBytes): the final newline of a file is optional and means nothing.
+    "both": every file whose last line is not empty is read in both framings; "alt": every second one
+    without the final newline."""
     root = core.ROOT + "/fs"
     cases = []
+    runs = []
     for i, r in enumerate(recs):
-        path = "%s/c%d/f.conf" % (root, i % 64)
-        cases.append((i, read_script(path, file_bytes(r["lines"]), r["delim"], r["comment"])))
+        lastfull = bool(r["lines"]) and bool(r["lines"][-1])
+        if framing == "both" or not lastfull:
+            fr = [True, False] if lastfull else [True]
+        else:
+            fr = [i % 2 == 0]
+        for fnl in fr:
+            path = "%s/c%d/f.conf" % (root, len(runs) % 64)
+            cases.append((len(runs), read_script(path, file_bytes(r["lines"], fnl), r["delim"], r["comment"])))
+            runs.append((i, fnl))
     res = core.run_cases(exe, cases)
     nn = 0
     samples = []
     seen = set()
-    for i, r in enumerate(recs):
-        out = res.get(i)
-        key = canon([r["delim"], r["comment"], r["lines"]])
+    for j, (i, fnl) in enumerate(runs):
+        r = recs[i]
+        out = res.get(j)
+        key = canon([r["delim"], r["comment"], r["lines"], fnl])
         if key in seen:
             continue
         seen.add(key)
-        nt = nontrivial(r)
-        if nt:
+        nt = nontrivial(r) and (fnl or framing == "both")
+        if nt and fnl:
             nn += 1
             if len(samples) < 3:
                 samples.append({"delim": core.uncodes(r["delim"]), "comment": core.uncodes(r["comment"]),
                                 "file": file_bytes(r["lines"]).decode("latin-1"), "expect": r["exp"]["rc"]})
-        case = {"kind": "file", "delim": r["delim"], "comment": r["comment"], "lines": r["lines"],
-                "text": file_bytes(r["lines"]).decode("latin-1"), "exp": r["exp"], "python": r.get("python", False)}
+        case = {"kind": "file", "delim": r["delim"], "comment": r["comment"], "lines": r["lines"], "final_newline": fnl,
+                "text": file_bytes(r["lines"], fnl).decode("latin-1") + ("" if fnl else "<no final newline>"), "exp": r["exp"], "python": r.get("python", False)}
         if out is None or out["crash"]:
             verdict.violation(fingerprint(r, "crash"), dict(case, crash=(out or {}).get("crash")),
                               "library crashed / hung on a conventional file:\n%s\n%s" % (case["text"], (out or {}).get("crash", "")[:600]))
@@ -339,10 +351,10 @@ def check_c02(exe, tier, seed, verdict):
     maxl = 3
     sample = 6 if tier == "quick" else 1
     r, recs, total = export("MC_Parser", {"MaxLines": maxl, "Export": "TRUE", "WithBad": "FALSE", "Opt": '"none"'},
-                            ["ParseIsMeaning"], sample=sample, seed=seed)
+                            ["ParseIsMeaning", "Framing"], sample=sample, seed=seed)
     if r.violated:
         verdict.violation("C02:model", {"tlc": r.out[-3000:]}, "TLC: Parser does not yield Meaning on the bounded universe\n" + r.out[-1500:])
-    n, nn, samples = replay_cases(exe, recs, ("g", "k", "v"), verdict, "C02", nt_c02, fp_parser("C02"))
+    n, nn, samples = replay_cases(exe, recs, ("g", "k", "v"), verdict, "C02", nt_c02, fp_parser("C02"), framing="both")
     # few line shapes, many lines: sections that re-open after other sections, keys below the repeated header
     rs, recs_s, total_s = export("MC_Parser", {"MaxLines": 6 if tier == "quick" else 7, "Export": "TRUE", "WithBad": "FALSE", "Opt": '"sections"'},
                                  ["ParseIsMeaning"], sample=1, seed=seed)
@@ -538,7 +550,7 @@ def replay(pid, path):
     print(json.dumps(rec, indent=1)[:4000])
     if case.get("kind") == "file":
         root = core.ROOT + "/rp"
-        s = read_script(root + "/f.conf", file_bytes(case["lines"]), case["delim"], case["comment"])
+        s = read_script(root + "/f.conf", file_bytes(case["lines"], case.get("final_newline", True)), case["delim"], case["comment"])
         out = core.run_cases(exe, [("r", s)], jobs=1)["r"]
         print(json.dumps(out, indent=1)[:6000])
     return 0
